@@ -22,18 +22,14 @@ everywhere in C05.
   the chunk's capacity, below the bump pointer of the arena that still allocates from it; the guard
   (`record_guarded`) holds in index form; and the chunker's buffered tail is a live detached slice
   (`reader_chunks_live`).
-* WHAT bytes are returned is the subject of C06 / C08 (byte-level `Model/Stream.lean`).  CHUNKER: the
-  world-level chunker returns exactly the byte-level chunker's chunks, for every history (`pump_world_agrees`,
-  `chunker_world_agrees`; `Proofs/StreamWorldRef.lean`).  READER: each `pump` inside `next_record_bytes` is that
-  same `pumpW`, so `pump_world_agrees` applies to it whenever `CRel` holds; NOT proved: that `decode_anchored`
-  of a chunk keeps `CRel` (the decoder's copies land above the chunker's buffered tail: a heap-frame lemma for a
-  SECOND held slice) and that the iovec then holds `Stream.Rec.bytes` (the simulation `SimV` of
-  `Proofs/EncWorldAnch.decFeed_simH` for a chunk of a foreign `AnchoredSlice`), hence `nextW ⊑ Stream.next` —
-  an open item.  The correspondence families `chunkerw` / `readerw` compare the world-level model with the
-  real code on the bytes AND on the placement (chunk ordinal, offset, length) of every slice handed out and on
-  the live set after every call.
+* WHAT bytes are returned is the subject of C06 / C08 (byte-level `Model/Stream.lean`); the world-level model
+  returns exactly the same, for every history: CHUNKER `pump_world_agrees`, `chunker_world_agrees`
+  (`Proofs/StreamWorldRef.lean`); READER `reader_next_agrees`, `reader_world_agrees`
+  (`Proofs/StreamWorldRd.lean`: same verdict and range, the byte-level record is the flattened iovec).  The
+  correspondence families `chunkerw` / `readerw` compare the world-level model with the real code on the bytes AND
+  on the placement (chunk ordinal, offset, length) of every slice handed out and on the live set after every call.
 -/
-import Woodpile.Proofs.StreamWorldRef
+import Woodpile.Proofs.StreamWorldRd
 import Woodpile.Props.C05
 
 namespace Woodpile.Props.C05S
@@ -147,7 +143,8 @@ theorem pump_world_agrees (clamp : Nat) (X : ArenaAt) (block : Nat) (t : Tuning)
     (res : PumpResW) (s' : PumpSt) (hrel : CRel s.w s.c c) (h : pumpW clamp X block s = some (res, s')) :
     ResRel s'.w res (pump clamp t block c m s.r).res ∧ CRel s'.w s'.c (pump clamp t block c m s.r).chunker ∧
     s'.r = (pump clamp t block c m s.r).reader ∧ s'.reqs = (pump clamp t block c m s.r).reqs :=
-  pumpW_refines clamp X block t s c m res s' hrel h
+  let ⟨h1, h2, h3, h4, _⟩ := pumpW_refines clamp X block t s c m res s' hrel h
+  ⟨h1, h2, h3, h4⟩
 
 /-- A new chunker is related to the byte-level `Chunker.new`. -/
 theorem chunker_new_rel (w : World) : CRel (ChunkerW.create w).1 (ChunkerW.create w).2 Chunker.new :=
@@ -195,28 +192,36 @@ theorem data_chunk_live {clamp : Nat} {X : ArenaAt} {block : Nat} (t : Tuning) {
       obtain ⟨g1, k, g2, g3, _, g5⟩ := hc hd a ha hl0
       exact ⟨a, bs, ha, rfl, hb, hl0, g1, k, g2, g3, g5⟩
 
-/-- READER, what is proved of "the world-level reader returns what the byte-level reader returns": every `pump`
-that `next_record_bytes` performs (the first thing `stepW` does, on the arena of the reader's own iovec) returns
-the byte-level chunk and keeps `CRel`, whenever `CRel` holds before it.
+/-- READER, one call: from related states (`RRel0`: the world's `self.buf` holds the byte-level buffer, same
+`last_sentinel_offset`, same judge history, the ownership invariant `Rinv`; `Only`: the chunker's buffer is the
+only non-empty detached slice), with the same reader, judge and block size, `next_record_bytes` at world level
+returns what the byte-level reader of C06 (`Stream.next`, any tuning) returns — `Some` with the same byte range
+and with the byte-level record equal to the FLATTENED IOVEC, `None`, the same I/O error — leaves the reader in the
+same position, and the states are related again.  (`Proofs/StreamWorldRd.lean`: the iovec satisfies the
+single-iovec invariant `IovInv` and every detached slice is held with respect to it — `Geo` —; `decode_anchored`
+of a chunk appends exactly the decoder's emits — `decFeed_pushed` — and leaves the chunker's buffered tail and its
+bytes alone — `FrameOut`.) -/
+theorem reader_next_agrees (clamp : Nat) (t : Tuning) (p : Params) (judge : Judge) (block : Option Nat) {x x' : RdSt}
+    {s : RdState} {res : NextResW} (h : RRel0 x s) (hon : Only x.w x.s.chunker.buf)
+    (hn : nextW clamp p judge block x = some (res, x')) :
+    ResN x' res (next clamp t p judge block s x.r).1 ∧ RRel0 x' (next clamp t p judge block s x.r).2.1 ∧
+    Only x'.w x'.s.chunker.buf ∧ x'.r = (next clamp t p judge block s x.r).2.2 :=
+  nextW_refines clamp t p judge block h hon hn
 
-FULL STATEMENT (not proved): for `x : RdSt`, `s : Stream.RdState` with `CRel x.w x.s.chunker s.chunker`, equal
-`lastSentinel` / `hist`, and `nextW clamp p judge block x = some (res, x')`:
-`Stream.next clamp t p judge block s x.r = (res', s', x'.r)` with `res = .some a b ↔ res' = .some bytes a b` where
-`bytes = x'.w.flat v.slices` for the record iovec `v`, `res = .none ↔ res' = .none`, `res = .ioerr k ↔ res' = .ioerr k`,
-and the relation holds again between `x'` and `s'`.
-MISSING: (1) `decode_anchored` of a chunk keeps `CRel` — the decoder's copies land above the chunker's buffered
-tail (a heap-frame lemma along `HPath` for a detached slice other than the held one: `IovecHeap.pushCopy_heap` with
-`ArenaInv.below` of the holding world); (2) the iovec's `total_size()` and flattened bytes after the call are
-`Stream.Rec.size` / `Stream.Rec.bytes` of the emits of `Dec.feedAll` on the chunk's bytes (`Pushed` /
-`EncWorldAnch.decFeed_simH` for a chunk whose `AnchoredSlice` was not read by this very call), which is what the
-judge's verdict and the returned record depend on. -/
-theorem reader_world_agrees_partial (clamp : Nat) (block : Nat) (t : Tuning) (x : RdSt) (c : Chunker) (m : Mem)
-    (res : PumpResW) (o : PumpSt) (hrel : CRel x.w x.s.chunker c)
-    (h : pumpW clamp (.iov x.s.iov) block ⟨x.w, x.s.chunker, x.r, []⟩ = some (res, o)) :
-    ResRel o.w res (pump clamp t block c m x.r).res ∧ CRel o.w o.c (pump clamp t block c m x.r).chunker ∧
-    o.r = (pump clamp t block c m x.r).reader :=
-  let ⟨h1, h2, h3, _⟩ := pumpW_refines clamp (.iov x.s.iov) block t ⟨x.w, x.s.chunker, x.r, []⟩ c m res o hrel h
-  ⟨h1, h2, h3⟩
+/-- READER, any number of calls of a new `StreamReader` (each call with its own judge and block size; any
+stream and reader script; any policy and tuning of the world, any tuning of the byte-level arena): the results,
+as the caller sees them when they are returned (`absNext`: a record is the flattened iovec), are exactly the
+results of the byte-level reader of C06, call by call, and the reader ends in the same position.  So everything
+C06 proves about `Stream.next` (exactly the valid records, their ranges, `last_sentinel_offset`, …) holds of the
+world-level reader whose slices `record_slices_live` is about. -/
+theorem reader_world_agrees (clamp : Nat) (t : Tuning) (p : Params) (pol : Policy) (tun : Tuning) (r : Reader)
+    (calls : List (Judge × Option Nat)) (rs : List NextRes) (x' : RdSt)
+    (h : readerRunW clamp p calls { RdSt.new pol tun with r := r } = some (rs, x')) :
+    rs = (readerRunB clamp t p calls RdState.new r).1 ∧ x'.r = (readerRunB clamp t p calls RdState.new r).2.2 := by
+  obtain ⟨h0, hon⟩ := rrel0_new pol tun
+  have h0' : RRel0 { RdSt.new pol tun with r := r } RdState.new := ⟨h0.crel, h0.ls, h0.hist, h0.rinv⟩
+  obtain ⟨a1, _, a3⟩ := readerRun_refines clamp t p calls _ RdState.new rs x' h0' hon h
+  exact ⟨a1, a3⟩
 
 /-! ### Non-vacuity -/
 
